@@ -52,7 +52,7 @@ def frame_ob(cx, name, paths, fn):
     """the thermodynamic functions are functions of their arguments only: nothing reachable from the arguments is modified
     (a hidden cache would make the result depend on earlier calls)"""
     writes = [w for p in paths for w in p.ex.ext_writes]
-    cx.ob(name + ".frame", [], blit(not writes), kind='frame', function=fn, writes=str(sorted({w[1] for w in writes}))[:300],
+    cx.ob(name + ".frame", [], blit(not writes), kind='frame', function=fn, writes=str(sorted({w[1] for w in writes}))[:300], **frame_meta(writes),
           statement="modifies nothing: the result depends on the arguments only")
 
 
